@@ -4,6 +4,8 @@ import json, sys
 
 CLAIMED = {
  "C01": ("SPEC differential", "4", "generated (path AST, document) pairs; library result compared with the independent SPEC interpreter: exact sequence/multiplicity/order, error iff SPEC selects nothing"),
+ "C02": ("validity predicate over generated/mutated/enumerated strings", "4", "about 1e6 generated strings per quick run (grammar-derived, mutated, token soup, Unicode, invalid UTF-8, boundary integers) plus the completely enumerated reduced grammar, under 4 configs: Parse returns exactly one of (function, nil) / (nil, documented syntax-check error), never panics, dies or hangs"),
+ "C17": ("differential against PEGI, an interpreter of jsonpath.peg", "4", "Parse's accept/reject decision, error type, character position and near text compared with an independent interpreter executing the published grammar file plus the documented restrictions, on generated/mutated strings and the enumerated reduced grammar"),
 }
 PENDING = {}
 for i in range(1, 21):
